@@ -90,3 +90,16 @@ package stackitem
 //@ assumed
 //@ pure
 //@ ensures result != nil && fresh(result)
+
+// ---- (C17) JSON decoding counts ITEMS, the way the serializer and the binary decoder do: a
+// closing bracket or brace ends a compound and is not an element, so it leaves the element budget
+// as it found it; a scalar takes exactly one unit.
+//@ prop C17
+//@ func (*decoder).decode
+//@ may-panic
+//@ opt frame off
+//@ requires d != nil
+//@ pkg-invariant ErrTooDeep != nil && ErrInvalidValue != nil
+//@ ensures[close] result0 == nil && result1 == nil ==> d.count == old(d.count)
+//@ ensures[scalar] result1 == nil && (is(result0, Bool) || is(result0, Null)) && old(d.count) > -4611686018427387904 ==> d.count == old(d.count) - 1
+//@ ensures[budget] result1 == nil && (is(result0, Bool) || is(result0, Null)) ==> d.count >= 0
